@@ -17,6 +17,7 @@ GROUPS = {
     "dtype_sortcmp": dict(filter="k_dtype::sortcmp_", bounded=None),
     "time_nat": dict(filter="k_time::nat_", bounded=None),
     "time_unit_identity": dict(filter="k_time::unit_identity", bounded=None),
+    "time_components": dict(filter="k_time::time_components", bounded=None),
     "time_delta_group": dict(filter="k_time::timedelta_group", bounded="operands within +-1e8 months / +-1e12 s (no component overflow); complete over that range"),
     "time_delta_scaling": dict(filter="k_time::timedelta_scaling", bounded="scale factor k in {-1, 0, 1, 2}; operands symbolic within +-1e8 months / +-1e12 s"),
     "time_delta_scaling_k3": dict(filter="k_time::timedelta_xscaling", bounded="scale factor k = 3 (5 min of CBMC); operands symbolic within +-1e8 months / +-1e12 s"),
